@@ -334,6 +334,9 @@ fn main() {
                 fs::write(proj.join("src/api.ts"), "// hand written api\n").map_err(|e| e.to_string())?;
                 let _ = std::os::unix::fs::symlink("../main_entry.ts", out.join("index.ts"));
                 let _ = fs::hard_link(proj.join("src/api.ts"), out.join("commands.ts"));
+                // the write probe of the build script carries a generated_ name: as a link it is replaced, not written through
+                fs::write(proj.join("src/notes.txt"), "hand written notes\n").map_err(|e| e.to_string())?;
+                let _ = std::os::unix::fs::symlink("../notes.txt", out.join("generated_write_test.tmp"));
             }
             // a cache file from elsewhere (merged, edited): whatever it lists, only reserved names may be removed
             fs::write(out.join(".typecache"), "{\n  \"version\": 1,\n  \"commands_hash\": \"0\",\n  \"structs_hash\": \"0\",\n  \"config_hash\": \"0\",\n  \"combined_hash\": \"0\",\n  \"generated_files\": [\"types.ts\", \"helpers.ts\", \"README.md\", \"notes/keep.txt\", \"../../src-tauri/src/lib.rs\", \"../../tauri.conf.json\"]\n}\n").map_err(|e| e.to_string())?;
@@ -354,7 +357,7 @@ fn main() {
             #[cfg(unix)]
             if fs::read_to_string(proj.join("src/validation/schemas.ts")).ok().as_deref() != Some("// hand written\nexport const x = 1;\n") { return Err("src/validation/schemas.ts (outside the output directory, the target of a stale symbolic link named schemas.ts) was modified or removed".into()); }
             #[cfg(unix)]
-            for (f, text) in [("src/main_entry.ts", "// hand written entry\n"), ("src/api.ts", "// hand written api\n")] {
+            for (f, text) in [("src/main_entry.ts", "// hand written entry\n"), ("src/api.ts", "// hand written api\n"), ("src/notes.txt", "hand written notes\n")] {
                 if fs::read_to_string(proj.join(f)).ok().as_deref() != Some(text) { return Err(format!("{} (outside the output directory, reached through a link under a generated name) was modified or removed", f)); }
             }
             if fs::read_to_string(proj.join("tauri.conf.json")).unwrap_or_default() != conf_before { return Err("tauri.conf.json was modified".into()); }
